@@ -3,8 +3,7 @@
 (* operators of Location.tla.  One record per case (a "trace" of length 1): the abstract *)
 (* case as emitted by TLC and the actual results of the real calls.  Every failing       *)
 (* clause is named in a REJECT line; nothing else is decided in python.                  *)
-(* (TLC re-evaluates LET definitions at every use, hence the derived location is passed  *)
-(* as an operator argument.)                                                             *)
+(* (The derived location is passed on as an operator argument, not bound by LET.)        *)
 EXTENDS Location, IOUtils
 
 VARIABLES tid, pos
